@@ -537,6 +537,11 @@ def gen_outcome(rng) -> Dict[str, Any]:
     return {"chunks": chunks, "ending": ending, "at_call": at_call, "write_result": write_result}
 
 
+def usable_backends() -> List[str]:
+    """Backends whose row the translator could read far enough to run cases on them."""
+    return [r["key"] for r in table()["rows"] if UNREC not in (r["datasetClass"], r["runner"]) and r["fileNames"]]
+
+
 def gen_case(rng) -> Dict[str, Any]:
     files, cwd = gen_files(rng, rng.choice(FILE_KINDS))
     n = len(files)
@@ -549,7 +554,7 @@ def gen_case(rng) -> Dict[str, Any]:
     outdir = None if r < 0.3 else ("{B}/out" if r < 0.85 else ("{B}/out/" if r < 0.9 else ("{B}//out/." if r < 0.97 else "{B}/nope")))
     before, after = gen_mds(rng)
     return {
-        "backend": rng.choice(BACKENDS), "files": files, "form": rng.choice(forms), "cwd": cwd, "image": image, "tag": tag,
+        "backend": rng.choice(usable_backends()), "files": files, "form": rng.choice(forms), "cwd": cwd, "image": image, "tag": tag,
         "outdir": outdir, "mds_before": before, "mds_after": after, "ttree": rng.random() < 0.3, "outcome": gen_outcome(rng),
     }
 
@@ -582,10 +587,11 @@ def grid_cases(tier: str) -> List[Dict[str, Any]]:
         outcomes = [outcomes[0], outcomes[2], outcomes[3], outcomes[6], outcomes[8]]
     cases = []
     i = 0
+    ub = usable_backends()
     for fsh in file_shapes:
         for before, after in md_shapes:
             for oc in outcomes:
-                bks = BACKENDS if tier == "thorough" else [BACKENDS[i % 3]]
+                bks = ub if tier == "thorough" else [ub[i % len(ub)]]
                 for b in bks:
                     cases.append({
                         "backend": b, "files": list(fsh), "form": ["list_str", "list_path"][i % 2], "cwd": "", "image": None if i % 3 else "my/img",
@@ -727,6 +733,8 @@ def replay_fixed(ctx, entry: Dict[str, Any]):
         f.write_text("data")
         for key in entry["input"].get("backends", ["atlas"]):
             row = tbl[key]
+            if row["datasetClass"] == UNREC:
+                continue
             code = impl.FRESH_SNIPPET.format(stubs=impl.STUBS, repo=str(vlib.REPO), module=row["module"], cls=row["datasetClass"], file=str(f))
             env = {k: v for k, v in os.environ.items() if k not in ("TMPDIR", "TEMP", "TMP")}
             p = subprocess.run([sys.executable, "-c", code], capture_output=True, text=True, timeout=120, env=env, cwd=d)
@@ -823,7 +831,7 @@ def check_table(ctx):
 
 def run(ctx):
     # 1. known findings first
-    known = ctx.known_entries("known")
+    known = [e for e in ctx.known_entries("known") if e["input"].get("backend") in usable_backends()]
     if known:
         ev = evaluate(ctx, [e["input"] for e in known])
         for entry, e in zip(known, ev):
@@ -833,9 +841,13 @@ def run(ctx):
     ctx.check_time()
 
     # 2. corpus, grid, generated cases
-    cases: List[Tuple[str, Dict[str, Any]]] = [("corpus", c["case"]) for c in vlib.corpus_cases(ID)]
+    if not usable_backends():
+        ctx.notes.append("no backend row could be translated: correspondence stream skipped")
+        return
+    ub = set(usable_backends())
+    cases: List[Tuple[str, Dict[str, Any]]] = [("corpus", c["case"]) for c in vlib.corpus_cases(ID) if c["case"]["backend"] in ub]
     cases += [("grid", c) for c in grid_cases(ctx.tier)]
-    nrand = 2000 if ctx.tier == "quick" else 30000
+    nrand = 1500 if ctx.tier == "quick" else 30000
     cases += [("random", gen_case(ctx.rng)) for _ in range(nrand)]
     ev = evaluate(ctx, [c for _, c in cases])
     for (stream, _), e in zip(cases, ev):
@@ -935,6 +947,8 @@ def as_violation(best: Dict[str, Any]) -> Dict[str, Any]:
 
 def search(ctx, broken):
     """Larger sweep with the Spec (on the implementation's observation) as the only judge; then shrink."""
+    if not usable_backends():
+        return None
     cases = grid_cases("thorough") + [gen_case(ctx.rng) for _ in range(1500)]
     fl = [e for e in evaluate(ctx, cases) if failing(e)]
     if not fl:
